@@ -31,6 +31,7 @@ func srcTag(s RSource) string {
 func init() { checks["C05"] = checkC05 }
 
 func checkC05(c *Ctx) (int, error) {
+	c.mech = true
 	c.ev.Level = "model_checking"
 	c.ev.Assumptions = []string{"enumerated: source kind x constructor (NewReader | Reset) x suffix length x container kind x encoder, on seeded streams whose final block ends at varying bit offsets (observed offsets are counted in the evidence)",
 		"the discard arithmetic is model-checked in ReaderMech for every final bit offset of its streams"}
@@ -97,6 +98,7 @@ func checkC05(c *Ctx) (int, error) {
 func init() { checks["C11"] = checkC11 }
 
 func checkC11(c *Ctx) (int, error) {
+	c.mech = true
 	c.ev.Level = "model_checking"
 	c.ev.Assumptions = []string{"decided at the instant the Reader asks a gated source for bytes beyond the released prefix (no timer): at that instant everything decodable from the prefix must already have been returned",
 		"prefixes: every sync-flush point and the end of seeded streams; chunkings of the prefix and behaviours after it (would block / error) enumerated"}
@@ -199,6 +201,7 @@ func checkC11(c *Ctx) (int, error) {
 func init() { checks["C15"] = checkC15 }
 
 func checkC15(c *Ctx) (int, error) {
+	c.mech = true
 	c.ev.Level = "fault_enumeration"
 	c.ev.Assumptions = []string{"the source fails after k bytes for EVERY k in 0..len-1 of each stream (streams up to the stated size; longer ones at a stride), error alone or together with the last bytes, fresh error value per case"}
 	if err := c.readerModels(); err != nil {
